@@ -21,7 +21,7 @@ func init() {
 	register(&Rule{ID: "R42", Title: "event forwarding: every consumer is visited, the list is copied under the lock and forwarded outside it, catch events match only while activated", Min: 4, Run: ruleR42})
 	register(&Rule{ID: "R43", Title: "timers: callback only after the clock channel fired, one-shot fires once, cycle loop tests and decrements its counter, mock clock sorts and removes", Min: 7, Run: ruleR43})
 	register(&Rule{ID: "R44", Title: "satisfiers: state changes only for matching events; Satisfy is called from one goroutine or under a lock", Min: 6, Run: ruleR44})
-	register(&Rule{ID: "R45", Title: "per-instance data: no unguarded mutable package-level state in the value/data layers; a fresh locator per instance", Min: 2, Run: ruleR45})
+	register(&Rule{ID: "R45", Title: "per-instance data: no unguarded mutable package-level state in the value/data layers; a fresh locator per instance", Min: 8, Run: ruleR45})
 	register(&Rule{ID: "R46", Title: "process set: one cease-process-set send followed by return; one instantiation per throw message", Min: 3, Run: ruleR46})
 }
 
@@ -1246,6 +1246,48 @@ func ruleR45(c *Ctx) {
 			c.Check(guardedAll, nil, nil, "package variable "+sp+"."+name, "a package-level variable that is written at run time is a registry guarded by a lock, not per-instance state", fmt.Sprintf("written in %s; all writes under an exclusive lock: %v", strings.Join(writers, ","), guardedAll))
 		}
 	}
+	// Option constructors: the returned closure must not install a reference that was created
+	// outside the closure (it would be shared by every instance the Option value is applied to);
+	// caller-supplied parameters are the caller's choice
+	for _, f := range p.Funcs {
+		if f.Obj == nil || f.Pkg.PkgPath != pathBpmn {
+			continue
+		}
+		sig := f.Obj.Type().(*types.Signature)
+		if sig.Results().Len() != 1 || !isNamed(sig.Results().At(0).Type(), pathBpmn, "Option") {
+			continue
+		}
+		in := info(f)
+		lit := returnedLiteral(p, f)
+		if lit == nil {
+			continue
+		}
+		var shared []string
+		ast.Inspect(lit.Body, func(z ast.Node) bool {
+			as, ok := z.(*ast.AssignStmt)
+			if !ok {
+				return true
+			}
+			for i, l := range as.Lhs {
+				if _, isSel := unparen(l).(*ast.SelectorExpr); !isSel || i >= len(as.Rhs) {
+					continue
+				}
+				if !isNamed(in.TypeOf(unparen(l).(*ast.SelectorExpr).X), pathBpmn, "Options") {
+					continue
+				}
+				if id, ok := unparen(as.Rhs[i]).(*ast.Ident); ok {
+					if v, ok := in.Uses[id].(*types.Var); ok && !v.IsField() && !isParam(f, v) && !(v.Pos() >= lit.Lit.Pos() && v.Pos() < lit.Lit.End()) {
+						switch v.Type().Underlying().(type) {
+						case *types.Pointer, *types.Map, *types.Interface, *types.Slice, *types.Chan:
+							shared = append(shared, v.Name())
+						}
+					}
+				}
+			}
+			return true
+		})
+		c.Check(len(shared) == 0, f, f.Decl, "option "+f.Obj.Name()+" installs per-application state", "an Option closure does not install a reference object created outside the closure (one Option value applied to two instances would make them share it)", ifEmpty(strings.Join(shared, ","), "nothing captured from the constructor is installed")+ifNotEmpty(shared, " created outside the closure and stored into *Options"))
+	}
 	// NewOptions allocates a fresh locator when none is supplied
 	for _, f := range p.Funcs {
 		if f.Name != "NewOptions" || f.Pkg.PkgPath != pathBpmn {
@@ -1328,5 +1370,185 @@ func ruleR46(c *Ctx) {
 			}
 			c.Check(nNew == 2 && !inLoop, f, cl.Clause, "one instantiation per throw message", "handling one throw message creates and starts the waiting process once (one NewProcess and one StartWith, not in a loop)", fmt.Sprintf("NewProcess/StartWith calls: %d, inside a loop: %v", nNew, inLoop))
 		}
+	}
+}
+
+// ---- R47 ----
+
+func init() {
+	register(&Rule{ID: "R47", Title: "partition-bounds: the slices a join hands to its parked tokens have bounds established by dominating comparisons", Min: 1, Run: ruleR47})
+}
+
+type boundTerm struct {
+	kind string // "id", "len", "const"
+	obj  types.Object
+	val  string
+}
+
+func (t boundTerm) String() string {
+	switch t.kind {
+	case "len":
+		return "len(" + t.obj.Name() + ")"
+	case "id":
+		return t.obj.Name()
+	}
+	return t.val
+}
+
+func termOf(in *types.Info, e ast.Expr) (boundTerm, bool) {
+	e = unparen(e)
+	if tv, ok := in.Types[e]; ok && tv.Value != nil {
+		return boundTerm{kind: "const", val: tv.Value.ExactString()}, true
+	}
+	switch x := e.(type) {
+	case *ast.Ident:
+		if o := objOf(in, x); o != nil {
+			return boundTerm{kind: "id", obj: o}, true
+		}
+	case *ast.CallExpr:
+		if isBuiltin(in, x, "len") && len(x.Args) == 1 {
+			if id, ok := unparen(x.Args[0]).(*ast.Ident); ok {
+				if o := objOf(in, id); o != nil {
+					return boundTerm{kind: "len", obj: o}, true
+				}
+			}
+		}
+	}
+	return boundTerm{}, false
+}
+
+type boundFact struct {
+	a   boundTerm
+	rel string // "<", "<=", "=="
+	b   boundTerm
+}
+
+// factsOf decomposes cond (taken as true when pos, as false otherwise).
+func factsOf(in *types.Info, cond ast.Expr, pos bool, out *[]boundFact) {
+	cond = unparen(cond)
+	if u, ok := cond.(*ast.UnaryExpr); ok && u.Op == token.NOT {
+		factsOf(in, u.X, !pos, out)
+		return
+	}
+	be, ok := cond.(*ast.BinaryExpr)
+	if !ok {
+		return
+	}
+	switch be.Op {
+	case token.LAND:
+		if pos {
+			factsOf(in, be.X, true, out)
+			factsOf(in, be.Y, true, out)
+		}
+		return
+	case token.LOR:
+		if !pos {
+			factsOf(in, be.X, false, out)
+			factsOf(in, be.Y, false, out)
+		}
+		return
+	}
+	a, ok1 := termOf(in, be.X)
+	b, ok2 := termOf(in, be.Y)
+	if !ok1 || !ok2 {
+		return
+	}
+	op := be.Op
+	if !pos {
+		switch op {
+		case token.LSS:
+			op = token.GEQ
+		case token.LEQ:
+			op = token.GTR
+		case token.GTR:
+			op = token.LEQ
+		case token.GEQ:
+			op = token.LSS
+		case token.EQL:
+			return
+		case token.NEQ:
+			op = token.EQL
+		}
+	}
+	switch op {
+	case token.LSS:
+		*out = append(*out, boundFact{a, "<", b})
+	case token.LEQ:
+		*out = append(*out, boundFact{a, "<=", b})
+	case token.GTR:
+		*out = append(*out, boundFact{b, "<", a})
+	case token.GEQ:
+		*out = append(*out, boundFact{b, "<=", a})
+	case token.EQL:
+		*out = append(*out, boundFact{a, "==", b}, boundFact{b, "==", a})
+	}
+}
+
+func sameTerm(x, y boundTerm) bool {
+	return x.kind == y.kind && x.obj == y.obj && x.val == y.val
+}
+
+func ruleR47(c *Ctx) {
+	p := c.P
+	for _, f := range p.Funcs {
+		if f.Pkg.PkgPath != pathBpmn {
+			continue
+		}
+		in := info(f)
+		// only functions that range over parked reply channels
+		distributes := false
+		inspectNoLit(f.Body, func(m ast.Node) bool {
+			if rs, ok := m.(*ast.RangeStmt); ok {
+				if sl, ok := in.TypeOf(rs.X).Underlying().(*types.Slice); ok && isReplyChan(sl.Elem()) {
+					distributes = true
+				}
+			}
+			return true
+		})
+		if !distributes {
+			continue
+		}
+		inspectNoLit(f.Body, func(m ast.Node) bool {
+			se, ok := m.(*ast.SliceExpr)
+			if !ok || se.Low == nil || se.High == nil {
+				return true
+			}
+			base, okb := unparen(se.X).(*ast.Ident)
+			lo, ok1 := termOf(in, se.Low)
+			hi, ok2 := termOf(in, se.High)
+			if !okb || !ok1 || !ok2 {
+				c.Ok(f, se, "slice bounds (compound operands)", "bounds with arithmetic operands are not decided by this rule", exprStringShort(se), false)
+				return true
+			}
+			var facts []boundFact
+			for cur := p.Parent(se); cur != nil && cur != ast.Node(f.Body); cur = p.Parent(cur) {
+				ifs, ok := cur.(*ast.IfStmt)
+				if !ok {
+					continue
+				}
+				if se.Pos() >= ifs.Body.Pos() && se.End() <= ifs.Body.End() {
+					factsOf(in, ifs.Cond, true, &facts)
+				} else if ifs.Else != nil && se.Pos() >= ifs.Else.Pos() && se.End() <= ifs.Else.End() {
+					factsOf(in, ifs.Cond, false, &facts)
+				}
+			}
+			has := func(a boundTerm, b boundTerm, strictOK bool) bool {
+				for _, ft := range facts {
+					if sameTerm(ft.a, a) && sameTerm(ft.b, b) && (ft.rel == "<=" || ft.rel == "==" || (strictOK && ft.rel == "<")) {
+						return true
+					}
+				}
+				return false
+			}
+			lenBase := boundTerm{kind: "len", obj: objOf(in, base)}
+			o1 := has(lo, hi, true) || (lo.kind == "const" && lo.val == "0")
+			o2 := has(hi, lenBase, true)
+			var fs []string
+			for _, ft := range facts {
+				fs = append(fs, ft.a.String()+ft.rel+ft.b.String())
+			}
+			c.Check(o1 && o2, f, se, "slice bounds of "+base.Name+"["+lo.String()+":"+hi.String()+"]", "the partition slice handed to a parked token has its bounds established by the enclosing comparisons: low <= high and high <= len (otherwise some number of arrivals and outgoing flows panics the gateway goroutine)", fmt.Sprintf("facts on the path: %v; low<=high proven: %v; high<=len proven: %v", fs, o1, o2))
+			return true
+		})
 	}
 }
